@@ -208,7 +208,6 @@ func (c *cache) Get(ctx context.Context, cacheId string, forceRevalidate int, sk
 	shouldRevalidate := false
 	if forceRevalidate != 0 {
 		shouldRevalidate = age >= int64(forceRevalidate)
-		skipRevalidate = false
 	}
 
 	dirs := GetCacheControlDirectives(sm.ResponseHeader)
